@@ -32,7 +32,7 @@ RULE = ("L2: JobServerSemaphore over a real pipe holding n in 1..4 tokens (recur
         "successful end of every dependency step (arguments, tools, previous step of the package) that the "
         "sequential build executed; (2) no workspace is started twice; (3) never more than N steps are open; (4) with "
         "a failing step the exit status is non-zero, no transitive dependent starts, without -k at most N-1 steps start "
-        "after the failure, and with -k (failing build or package step) every other step of the sequential build completes; without failure exactly the steps of the sequential build run; (5) every "
+        "after the failure and none after one of those has finished, and with -k (failing build or package step) every other step of the sequential build completes; without failure exactly the steps of the sequential build run; (5) every "
         "package result equals the sequential build; (6) in builds that are not aborted (success, or failure under "
         "-k) all N (N-1) tokens are back in the FIFO at shutdown. Non-trivial: >=2 steps were open at the same time "
         "and some step is a dependency of >=2 other executed steps; distinct = hash of the case.")
@@ -357,6 +357,15 @@ def run_build_case(ctx, case, confirm=False):
         fail_key = None
         if case["fail"] is not None and ref_starts:
             fail_key = ref_starts[case["fail"] % len(ref_starts)]
+            # every other plan lets a step fail that several others wait for (reached on more than one path)
+            wanted = [k for k in ref_starts if sum(1 for p in deps if k in deps[p]) >= 2]
+            if wanted and case["fail"] % 2:
+                fail_key = wanted[(case["fail"] // 2) % len(wanted)]
+            elif not case["keep"] and case["fail"] % 4 == 2:
+                # an early failure, while most of the other steps are still queued for a job slot
+                fail_key = ref_starts[(case["fail"] // 4) % min(3, len(ref_starts))]
+            if case["fail"] % 2 and os.path.exists(os.path.join(sw, "dur", fail_key)):
+                os.unlink(os.path.join(sw, "dur", fail_key))      # fails at once: later requests find it already failed
             open(os.path.join(sw, "fail", fail_key), "w").close()
         env = C1.env_for(W)
         argv = C1.build_argv(model, "dev", None) + (["-k"] if case["keep"] else [])
@@ -455,6 +464,18 @@ def run_build_case(ctx, case, confirm=False):
                     if len(late) > N - 1:
                         ctx.fail("failure-did-not-stop-build", "%s: %d steps were started after the failure: %r" % (what, len(late), late), case)
                     ctx.label("L1:starts-after-failure:%d" % min(len(late), 3))
+                    # ... and none of those can be followed by yet another start: a slot that a late step frees is only
+                    # handed out after Bob has seen the (much earlier) exit of the failed script
+                    late_set, ended_late = set(), False
+                    for e in ev[pos + 1:]:
+                        if e[0] == "start":
+                            if ended_late:
+                                ctx.fail("failure-did-not-stop-build", "%s: %s was started after the failure and even after a step "
+                                         "that itself started after the failure had finished (steps started after the failure: %r)" %
+                                         (what, e[1], late), case)
+                            late_set.add(e[1])
+                        elif e[0] == "end" and e[1] in late_set:
+                            ended_late = True
         else:
             if rw.rc != 0:
                 ctx.fail("parallel-build-fails", "%s: the sequential build succeeds, the parallel one fails: %s" % (what, rw.err[-500:]), case)
